@@ -793,6 +793,39 @@ Definition sp_splice_f (c : cfg) (st : astate) (nx : N) (a : api) (v : nat) (sb 
     end
   end.
 
+(** a lazy clone offered to push / insert whose Clone panics (fuse 0: the one call of user code the step makes): the
+    refusals come first, unchanged; otherwise nothing is created, push leaves the vector as it was, insert has hidden
+    the tail behind the insertion point while the Clone ran - it stays hidden (leaked), the prefix is intact *)
+Definition after_clone_panic (st : astate) (v : nat) (a : avec) (idx : option N) : astate :=
+  match idx with
+  | None => st
+  | Some i => set_a v (Some (with_xs a (firstn (N.to_nat i) (a_xs a)))) st
+  end.
+Definition sp_offer_lazy_f (c : cfg) (st : astate) (nx : N) (v : nat) (idx : option N) (src : nat) (sidx : N)
+  : option sres :=
+  if Nat.eqb src v then None
+  else match get_a v st, get_a src st with
+       | Some a, Some b =>
+           if sidx <? N.of_nat (length (a_xs b)) then
+             match put_value c a idx (tok c nx) with
+             | inl _ => Some (panic_res PUser [] (after_clone_panic st v a idx) nx)
+             | inr p => Some (panic_res p [] st nx)
+             end
+           else Some (panic_res PIndex [] st nx)
+       | _, _ => None
+       end.
+(** ... of a value the caller owns: that value is destroyed by the caller afterwards, as always *)
+Definition sp_offer_userlazy_f (c : cfg) (st : astate) (nx : N) (v : nat) (idx : option N) : option sres :=
+  match get_a v st with
+  | Some a =>
+      let t := tok c nx in
+      match put_value c a idx (tok c (nx + 1)) with
+      | inl _ => Some (panic_res PUser (drop_ev c t) (after_clone_panic st v a idx) (nx + 1))
+      | inr p => Some (panic_res p (drop_ev c t) st (nx + 1))
+      end
+  | None => None
+  end.
+
 Definition spec_step_f (c : cfg) (st : astate) (nx : N) (fuse : option N) (o : op) : option sres :=
   match fuse with
   | None => spec_step c st nx o
@@ -811,6 +844,10 @@ Definition spec_step_f (c : cfg) (st : astate) (nx : N) (fuse : option N) (o : o
       | OPop _ v KDrop => sp_take_drop_f c st nx v TPop 0 k
       | ORemove _ v idx KDrop => sp_take_drop_f c st nx v TRemove idx k
       | OSwapRemove _ v idx KDrop => sp_take_drop_f c st nx v TSwapRemove idx k
+      | OPush Erased v (SLazy _ src sidx) => if k =? 0 then sp_offer_lazy_f c st nx v None src sidx else None
+      | OInsert Erased v idx (SLazy _ src sidx) => if k =? 0 then sp_offer_lazy_f c st nx v (Some idx) src sidx else None
+      | OPush Erased v (SLazyUser _) => if k =? 0 then sp_offer_userlazy_f c st nx v None else None
+      | OInsert Erased v idx (SLazyUser _) => if k =? 0 then sp_offer_userlazy_f c st nx v (Some idx) else None
       | _ => None
       end
   end.
